@@ -113,12 +113,12 @@ theorem T_C07_trait (v : Variant) (attr : Toks) (t : TraitItem) (out : Out)
 
 theorem unraw_impl : unraw "__impl" = "__impl" := by decide +kernel
 
-theorem fixParams_impl (f : String) (hne : unraw f ≠ "__impl") (us : List FnArg) :
-    ∃ rest, fixParams f (implReceiverArg :: us) = implReceiverArg :: rest := by
+theorem fixParams_impl (f : String) (hne : unraw f ≠ "__impl") (lt : Option String) (us : List FnArg) :
+    ∃ rest, fixParams f (implReceiverWith lt :: us) = implReceiverWith lt :: rest := by
   have hb : (unraw "__impl" == unraw f) = false := by
     rw [unraw_impl]; exact beq_false_of_ne (fun h => hne h.symm)
   unfold fixParams
-  simp only [List.map_cons, implReceiverArg, FnArg.liftPat, liftPat, plainPat, nameArgs, hb, Bool.false_eq_true,
+  simp only [List.map_cons, implReceiverWith, FnArg.liftPat, liftPat, plainPat, nameArgs, hb, Bool.false_eq_true,
     if_false]
   exact ⟨_, rfl⟩
 
@@ -156,32 +156,35 @@ theorem methodCallsFn_impl_ok (dyn : Bool) (ind : ImplIndirection) (hind : ind.i
     (hne : unraw src.sig.ident ≠ "__impl") :
     methodCallsFn false true src (.fn [] tf.sig (some (delegatingBody .implBlock ind tf))) = true := by
   have hnr := C01.identOk_notRaw _ hid
+  obtain ⟨lt, hlt⟩ : ∃ lt, implRecvOf dyn src.sig = implReceiverWith lt := by
+    unfold implRecvOf; split <;> exact ⟨_, rfl⟩
   let us := (typedArgs (src.sig.inputs.drop 1)).map FnArg.stripAttrs
-  have htyL : ∀ u ∈ implReceiverArg :: us, u.isRecv = false := by
+  have htyL : ∀ u ∈ implReceiverWith lt :: us, u.isRecv = false := by
     intro u hu
     rcases List.mem_cons.mp hu with rfl | hu
     · rfl
     · obtain ⟨w, hw, rfl⟩ := List.mem_map.mp hu
       rw [stripAttrs_isRecv]
       simpa using (List.mem_filter.mp hw).2
-  have htyped : typedArgs tf.sig.inputs = fixParams src.sig.ident (implReceiverArg :: us) := hs.typed
-  obtain ⟨rest, hfp⟩ := fixParams_impl src.sig.ident hne us
+  have htyped : typedArgs tf.sig.inputs = fixParams src.sig.ident (implReceiverWith lt :: us) := by
+    rw [← hlt]; exact hs.typed
+  obtain ⟨rest, hfp⟩ := fixParams_impl src.sig.ident hne lt us
   have hpi : paramIdents tf.sig.inputs = "__impl" :: paramIdents rest := by
     rw [← paramIdents_typedArgs, htyped, hfp]; rfl
-  have hok := paramNamesOk_fixParams src.sig.ident hnr (implReceiverArg :: us) htyL tf.sig
+  have hok := paramNamesOk_fixParams src.sig.ident hnr (implReceiverWith lt :: us) htyL tf.sig
   unfold paramNamesOk at hok
   simp only [Bool.and_eq_true, List.nil_append] at hok
   obtain ⟨⟨hplain, hnotfn⟩, hrest⟩ := hok
   have hc2 : allPlain tf.sig.inputs = true := by
     rw [← C16.allPlain_typedArgs, htyped]; exact hplain
-  have hpi2 : paramIdents (fixParams src.sig.ident (implReceiverArg :: us)) = paramIdents tf.sig.inputs := by
+  have hpi2 : paramIdents (fixParams src.sig.ident (implReceiverWith lt :: us)) = paramIdents tf.sig.inputs := by
     rw [← htyped, paramIdents_typedArgs]
   rw [hpi2] at hnotfn hrest
-  have hprov : ((implReceiverArg :: us).filterMap FnArg.providedName).map unraw =
+  have hprov : ((implReceiverWith lt :: us).filterMap FnArg.providedName).map unraw =
       "__impl" :: ((typedArgs (src.sig.inputs.drop 1)).filterMap FnArg.providedName).map unraw := by
     have h1 : us.filterMap FnArg.providedName = (typedArgs (src.sig.inputs.drop 1)).filterMap FnArg.providedName := by
       simp only [us]; rw [List.filterMap_map]; congr 1; funext a; exact providedName_strip a
-    simp only [implReceiverArg, List.filterMap_cons, FnArg.providedName, Pat.providedName, h1, List.map_cons]
+    simp only [implReceiverWith, List.filterMap_cons, FnArg.providedName, Pat.providedName, h1, List.map_cons]
     congr 1
   rw [hprov] at hrest
   have hc4 : (nodup ((paramIdents tf.sig.inputs).map unraw) ||
@@ -193,9 +196,9 @@ theorem methodCallsFn_impl_ok (dyn : Bool) (ind : ImplIndirection) (hind : ind.i
       simp only [List.singleton_append, hnd, Bool.not_false, Bool.or_true]
   have hc5 : (typedArgs tf.sig.inputs).length = (typedArgs (src.sig.inputs.drop 1)).length + 1 := by
     have h3 := allPlain_implies_len _ hplain
-    have hp := paramIdents_fixParams_length src.sig.ident (implReceiverArg :: us)
+    have hp := paramIdents_fixParams_length src.sig.ident (implReceiverWith lt :: us)
     rw [typedArgs_of_allTyped _ htyL] at hp
-    have hty2 : ∀ u ∈ fixParams src.sig.ident (implReceiverArg :: us), u.isRecv = false :=
+    have hty2 : ∀ u ∈ fixParams src.sig.ident (implReceiverWith lt :: us), u.isRecv = false :=
       fun u hu => sameShape_noRecv _ _ (sameShape_fixParams src.sig.ident _) htyL u hu
     rw [typedArgs_of_allTyped _ hty2] at h3
     rw [htyped, ← h3, hp]; simp [us]
@@ -252,12 +255,12 @@ theorem takesSelfByValue_impl {dyn : Bool} {s : Sig} {tf : TraitFn} (hs : ImplMo
     tf.sig.takesSelfByValue = (dyn && s.depByValue) := by
   rcases hs.head with ⟨rfl, hh⟩ | ⟨rfl, hh⟩
   · -- static: the first parameter is the typed `__impl`
-    have hshape := sameShape_fixParams s.ident (implReceiverArg :: (s.inputs.drop 1).map FnArg.stripAttrs)
+    have hshape := sameShape_fixParams s.ident (implRecvOf false s :: (s.inputs.drop 1).map FnArg.stripAttrs)
     simp only [Bool.false_and]
     unfold Sig.takesSelfByValue
-    match hX : fixParams s.ident (implReceiverArg :: (s.inputs.drop 1).map FnArg.stripAttrs) with
-    | [] => rw [hX] at hshape; simp [sameShape, implReceiverArg] at hshape
-    | .recv .. :: _ => rw [hX] at hshape; simp [sameShape, implReceiverArg] at hshape
+    match hX : fixParams s.ident (implRecvOf false s :: (s.inputs.drop 1).map FnArg.stripAttrs) with
+    | [] => rw [hX] at hshape; simp [sameShape, implRecvOf, implReceiverWith] at hshape
+    | .recv .. :: _ => rw [hX] at hshape; simp [sameShape, implRecvOf, implReceiverWith] at hshape
     | .typed a0 p0 t0 :: rest =>
       rw [hX] at hh
       cases hi : tf.sig.inputs with
@@ -321,12 +324,12 @@ theorem implBlockHeader_ok (o : Opts) (dyn : Bool) (hn : o.noDepsValue = false) 
   have hsty : implSelfTy .generic (if dyn then ImplIndirection.dynamic selfTy else .static_ selfTy) o.mockable = selfTy := by
     cases dyn <;> rfl
   rw [himk]
-  simp only [implParams, List.cons_append, List.nil_append, implTParamOk, List.head?_cons, implTParam, hsty,
+  simp only [implTParamOk, macroParam_generic, implTParam, hsty, entraitT,
     implWherePreds, hb, hbv, hind, genericArgs, Bool.and_eq_true, beq_self_eq_true, Bool.false_eq_true, if_false, true_and]
   refine ⟨⟨?_, C04.sameMultiset_refl _⟩, ?_⟩
   · have hj : ∀ (x : TT) (rest : List Toks), ∃ tl, joinSep [p ','] ([x] :: rest) = x :: tl := by
       intro x rest; cases rest <;> simp [joinSep]
-    obtain ⟨tl, htl⟩ := hj (i entraitT) (tg.params.map GParam.argToks)
+    obtain ⟨tl, htl⟩ := hj (i "EntraitT") (tg.params.map GParam.argToks)
     simp [angle, List.isPrefixOf_iff_prefix, List.prefix_iff_eq_append, htl]
   · unfold wherePredsOk
     cases hde : (sigs.flatMap Sig.declaredDepBounds).isEmpty
